@@ -276,7 +276,7 @@ def compare(case, a, b, level):
 
 # ---------------------------------------------------------------- generation
 
-NAMES = [b"a", b"b", b"ab", b"d", b"f", b"l", b"\xc3\xa4", b"e\xe2\x82\xac"]
+NAMES = [b"a", b"b", b"ab", b"d", b"f", b"l", b"\xc3\xa4", b"e\xe2\x82\xac", b"..d", b"a\\b"]
 FILE_PERMS = [0o644, 0o600, 0o755, 0o4755, 0o2755, 0o2644, 0o6755, 0o1644, 0o444, 0o0]
 DIR_PERMS = [0o755, 0o700, 0o2755, 0o1777, 0o775]
 IDS = [0, 1000, 1001]
